@@ -11,6 +11,8 @@ P4 == << <<Op("append", "b", "", <<7>>)>>, <<Op("rename", "b", "a", << >>)>> >>
 P5 == << <<Op("append", "b", "", <<7>>), Op("append", "b", "", <<8, 9>>)>>, <<Op("remove", "b", "", << >>)>> >>
 P6 == << <<Op("writefile", "b", "", <<7>>)>>, <<Op("writefile", "b", "", <<8, 9>>)>> >>
 P7 == << <<Op("writefile", "b", "", <<7>>)>>, <<Op("rename", "b", "a", << >>), Op("append", "a", "", <<8, 9>>)>> >>
+P8 == << <<Op("append", "b", "", <<7>>)>>, <<Op("readfile", "b", "", << >>), Op("readfile", "b", "", << >>)>> >>
+P9 == << <<Op("writefile", "b", "", <<8, 9>>)>>, <<Op("readfile", "b", "", << >>), Op("remove", "b", "", << >>)>> >>
 \* (two creators of one name - createappend(b) || remove(b);writefile(b) - violate WriteBackSafe in this model: O_CREATE replaces
 \* whatever took the name since its look-up without counting an unlink; part of the recorded non-atomicity of keyvalue.FS)
 =============================================================================
